@@ -169,6 +169,20 @@ CHECKS = {
              "placeholders with pending side effects are C06's.",
         technique="contract-based deductive verification: mechanical production inventory + rejecting (raises) contracts + fold "
                   "invariant on the item consumers + per-callback injection obligations, native source-level replay"),
+    "C07": dict(
+        category="proof",
+        text="Complete finite case analysis over the operand spellings the grammar terminals admit: every register class letter x "
+             "access spelling x {plain, .new} (exhaustive), explicit registers single/pair with and without _NEW, aliases, every "
+             "immediate letter, every load/store width and signedness, jump target, pc. For each spelling the real callback and "
+             "the node's il_init_var()/il_read()/il_write are executed and compared with the architectural table: operand slot "
+             "letter, register number, class enum, .new flag, width, signedness; READ_REG/WRITE_REG(bundle, <that operand>, v); "
+             "LOADW width/address, STOREW, the access signedness drives widening; the access state machine for all states.",
+        design_ref="DESIGN.md section 3, C07",
+        note=TRUST + "Architectural table spec/hexagon.py (T-HEX) and plugin macro contracts (T-PLUGIN); alias names sampled (the name "
+             "enters the text only through upper()/lower()); explicit numbers sampled in the quick tier, all 20x21 in thorough; "
+             "pairs of classes without a pair class (P, M, Q) are outside the domain.",
+        technique="contract-based deductive verification: path-complete symbolic execution of the real operand callbacks and emitters "
+                  "over an exhaustively enumerated finite spelling domain, postconditions against an architectural table"),
 }
 
 NOT_APPLICABLE = {
